@@ -41,7 +41,7 @@ type KVTxn struct {
 
 type KVIter struct {
 	ents    []*kvEnt
-	pos     int
+	cur     *kvEnt
 	reverse bool
 }
 
@@ -345,69 +345,48 @@ func registerKVIntrinsics() {
 					ents = append(ents, e)
 				}
 			}
-			// insertion sort in iteration order
-			for i := 1; i < len(ents); i++ {
-				for j := i; j > 0; j-- {
-					lt := p.lexLess(ents[j].key, ents[j-1].key)
-					if reverse {
-						lt = p.lexLess(ents[j-1].key, ents[j].key)
-					}
-					if !p.branch(lt) {
-						break
-					}
-					ents[j], ents[j-1] = ents[j-1], ents[j]
-				}
-			}
+			// entries are selected lazily (minimum / maximum of the not yet visited ones):
+			// only the keys an iteration actually reaches are ever compared
 			return opaquePtr("kviter", &KVIter{ents: ents, reverse: reverse})
 		},
 		it + "Rewind": func(p *Path, _ *ssa.Function, a []Value) Value {
-			opaqueOf(p, a[0], "kviter").data.(*KVIter).pos = 0
+			k := opaqueOf(p, a[0], "kviter").data.(*KVIter)
+			p.iterSelect(k, nil, false)
 			return nil
 		},
 		it + "Seek": func(p *Path, _ *ssa.Function, a []Value) Value {
 			k := opaqueOf(p, a[0], "kviter").data.(*KVIter)
 			key := sliceTerms(a[1])
-			k.pos = 0
 			if len(key) == 0 {
-				return nil
+				key = nil
 			}
-			for k.pos < len(k.ents) {
-				e := k.ents[k.pos]
-				// forward: first key >= seek key; reverse: first key <= seek key
-				var before *Term
-				if k.reverse {
-					before = p.lexLess(key, e.key)
-				} else {
-					before = p.lexLess(e.key, key)
-				}
-				if !p.branch(before) {
-					break
-				}
-				k.pos++
-			}
+			p.iterSelect(k, key, true)
 			return nil
 		},
 		it + "Valid": func(p *Path, _ *ssa.Function, a []Value) Value {
 			k := opaqueOf(p, a[0], "kviter").data.(*KVIter)
-			return p.tb.Bool(k.pos < len(k.ents))
+			return p.tb.Bool(k.cur != nil)
 		},
 		it + "ValidForPrefix": func(p *Path, _ *ssa.Function, a []Value) Value {
 			k := opaqueOf(p, a[0], "kviter").data.(*KVIter)
-			if k.pos >= len(k.ents) {
+			if k.cur == nil {
 				return p.tb.False
 			}
-			return p.hasPrefix(k.ents[k.pos].key, sliceTerms(a[1]))
+			return p.hasPrefix(k.cur.key, sliceTerms(a[1]))
 		},
 		it + "Next": func(p *Path, _ *ssa.Function, a []Value) Value {
-			opaqueOf(p, a[0], "kviter").data.(*KVIter).pos++
+			k := opaqueOf(p, a[0], "kviter").data.(*KVIter)
+			if k.cur != nil {
+				p.iterSelect(k, k.cur.key, false)
+			}
 			return nil
 		},
 		it + "Item": func(p *Path, _ *ssa.Function, a []Value) Value {
 			k := opaqueOf(p, a[0], "kviter").data.(*KVIter)
-			if k.pos >= len(k.ents) {
+			if k.cur == nil {
 				return Ptr(nil)
 			}
-			return opaquePtr("kvitem", k.ents[k.pos])
+			return opaquePtr("kvitem", k.cur)
 		},
 		it + "Close": nop,
 		im + "Key": func(p *Path, _ *ssa.Function, a []Value) Value {
@@ -451,4 +430,43 @@ func cloneSlice(v Value) Slice {
 	out := make(Slice, len(s))
 	copy(out, s)
 	return out
+}
+
+// iterSelect positions the iterator on the first entry in iteration order that is
+// at (inclusive) or after (exclusive) bound; bound == nil means the very first entry.
+func (p *Path) iterSelect(k *KVIter, bound []*Term, inclusive bool) {
+	var best *kvEnt
+	for _, e := range k.ents {
+		if bound != nil {
+			// forward: need e.key >= bound (inclusive) or > bound; reverse: <= / <
+			var outside *Term
+			switch {
+			case !k.reverse && inclusive:
+				outside = p.lexLess(e.key, bound)
+			case !k.reverse:
+				outside = p.tb.Not(p.lexLess(bound, e.key))
+			case inclusive:
+				outside = p.lexLess(bound, e.key)
+			default:
+				outside = p.tb.Not(p.lexLess(e.key, bound))
+			}
+			if p.branch(outside) {
+				continue
+			}
+		}
+		if best == nil {
+			best = e
+			continue
+		}
+		var better *Term
+		if k.reverse {
+			better = p.lexLess(best.key, e.key)
+		} else {
+			better = p.lexLess(e.key, best.key)
+		}
+		if p.branch(better) {
+			best = e
+		}
+	}
+	k.cur = best
 }
